@@ -47,7 +47,7 @@ func runBatch(d DelayCfg, par int, jobs []string, limit time.Duration) BatchRes 
 }
 
 func batchInput(d DelayCfg, par int, jobs []string) string {
-	return fmt.Sprintf("c13child %d %d %d %d %s", d.Seed, d.US, d.P, par, strings.Join(jobs, ";"))
+	return fmt.Sprintf("c13child %s %d %s", d.String(), par, strings.Join(jobs, ";"))
 }
 
 var oldSchedules = [][2]string{
@@ -72,16 +72,14 @@ func main() {
 		}
 		return "unknown historical schedule"
 	})
-	RegisterOp("c13child", func(a []string) string { // c13child <dseed> <us> <p> <par> <job>;<job>;...
-		if len(a) < 5 {
+	RegisterOp("c13child", func(a []string) string { // c13child <seed:us:p:site> <par> <job>;<job>;...
+		if len(a) < 3 {
 			return "bad-args"
 		}
-		ds, _ := strconv.Atoi(a[0])
-		us, _ := strconv.Atoi(a[1])
-		p, _ := strconv.Atoi(a[2])
-		par, _ := strconv.Atoi(a[3])
-		jobs := strings.Split(strings.Join(a[4:], " "), ";")
-		r := runBatch(DelayCfg{Seed: ds, US: us, P: p}, par, jobs, 120*time.Second)
+		cfg := ParseDelayCfg(a[0])
+		par, _ := strconv.Atoi(a[1])
+		jobs := strings.Split(strings.Join(a[2:], " "), ";")
+		r := runBatch(cfg, par, jobs, 120*time.Second)
 		var v []string
 		for _, o := range r.Outs {
 			for _, x := range o.Viol {
@@ -97,25 +95,22 @@ func main() {
 }
 
 func c13(c *Ctx) {
-	c.Rule = "fault enumeration in a child process built with the delay overlay: scenarios close-idle / close-early (before the join completes) / close-queued (3..7 commands, the terminal goes after 1-2 were written) / close-outstanding / rst-outstanding / close-afterresp / close-timer (close within +-4 ms of the timer expiry) / notmo (no timeout, released by the disconnect) / mixed / burst, 1..8 callers, timeouts 60-600 ms, under 6 delay configurations (seeded Gosched only at 30 / 60 % of the instrumented sites, sleeps up to 0.2 / 0.5 / 1 / 3 ms at 30 / 20 / 15 / 5 %); a case is non-trivial when at least one call was made and the terminal went away; distinct = distinct recorded histories"
+	c.Rule = "fault enumeration in a child process built with the delay overlay: scenarios close-idle / close-early (before the join completes) / close-queued (3..7 commands, the terminal goes after 1-2 were written) / close-outstanding / rst-outstanding / close-afterresp / close-timer (close within +-4 ms of the timer expiry) / notmo (no timeout, released by the disconnect) / mixed / burst, 1..8 callers, timeouts 60-600 ms, under 6 delay configurations (seeded Gosched only at 30 / 60 % of the instrumented sites, sleeps up to 0.2 / 0.5 / 1 / 3 ms at 30 / 20 / 15 / 12 %) and, for each of the instrumented sites in turn, with that site alone always delaying 2.5 ms; a case is non-trivial when at least one call was made and the terminal went away; distinct = distinct recorded histories"
 	for _, o := range oldSchedules {
 		c.Do(o[0], false)
 	}
 	if _, err := child(); err != nil {
 		c.Violate(Violation{Signature: "C13/child-build", What: "the server with the delay overlay does not build from the current tree",
-			Input: "c13child 1 0 30 1 scn close-idle 1", Observed: Trunc(err.Error(), 1500), Required: "a child binary"})
+			Input: "c13child 1:0:30:0 1 scn close-idle 1", Observed: Trunc(err.Error(), 1500), Required: "a child binary"})
 		return
-	}
-	if nsites > 0 {
-		c.Extra["delay_sites"] = nsites
 	}
 	kinds := []string{"close-idle", "close-early", "close-queued", "close-queued", "close-outstanding", "rst-outstanding",
 		"close-afterresp", "close-timer", "close-timer", "notmo", "mixed", "burst"}
 	cfgs := []DelayCfg{{Seed: int(c.Seed), US: 0, P: 30}, {Seed: int(c.Seed) + 1, US: 200, P: 30}, {Seed: int(c.Seed) + 2, US: 1000, P: 15},
-		{Seed: int(c.Seed) + 3, US: 3000, P: 5}, {Seed: int(c.Seed) + 4, US: 0, P: 60}, {Seed: int(c.Seed) + 5, US: 500, P: 20}}
+		{Seed: int(c.Seed) + 3, US: 3000, P: 12}, {Seed: int(c.Seed) + 4, US: 0, P: 60}, {Seed: int(c.Seed) + 5, US: 500, P: 20}}
 	per := 16
 	if !c.Quick() {
-		per = 40
+		per = 120
 		for i := 0; i < 12; i++ {
 			cfgs = append(cfgs, DelayCfg{Seed: int(c.Seed) + 10 + i, US: []int{0, 100, 500, 2000}[i%4], P: []int{50, 30, 10}[i%3]})
 		}
@@ -125,31 +120,59 @@ func c13(c *Ctx) {
 		jobs []string
 		r    BatchRes
 	}
-	results := make([]br, len(cfgs))
-	var wg sync.WaitGroup
-	for i, d := range cfgs {
+	var results []*br
+	for _, d := range cfgs {
 		var jobs []string
 		for _, k := range kinds {
 			for j := 0; j < per; j++ {
 				jobs = append(jobs, fmt.Sprintf("scn %s %d", k, c.Rng.Int63n(90000000)))
 			}
 		}
-		results[i] = br{d: d, jobs: jobs}
-		wg.Add(1)
-		go func(i int) {
-			defer wg.Done()
-			results[i].r = runBatch(results[i].d, 8, results[i].jobs, 70*time.Second)
-		}(i)
-		if i%2 == 1 {
-			wg.Wait() // two children at a time
+		results = append(results, &br{d: d, jobs: jobs})
+	}
+	// targeted: one site at a time always delays by 2.5 ms (the window between a check and the action it
+	// guards, between two closes, ... is held open) while terminals disconnect around the timer expiry
+	sites := DelaySites()
+	c.Extra["delay_sites"] = len(sites)
+	tk := []string{"close-timer", "close-timer", "close-timer", "close-timer", "close-timer", "close-timer",
+		"close-outstanding", "close-queued", "close-queued", "close-afterresp", "rst-outstanding", "notmo"}
+	reps := 1
+	if !c.Quick() {
+		reps = 24
+	}
+	for rep := 0; rep < reps; rep++ {
+		for _, st := range sites {
+			var jobs []string
+			for _, k := range tk {
+				jobs = append(jobs, fmt.Sprintf("scn %s %d", k, c.Rng.Int63n(90000000)))
+			}
+			results = append(results, &br{d: DelayCfg{Seed: int(c.Seed), US: 2500, P: 100, Site: st.ID + 1}, jobs: jobs})
+			c.Count("targeted:" + st.Func + "/" + st.What)
 		}
+	}
+	limit := 70 * time.Second
+	if !c.Quick() {
+		limit = 10 * time.Minute
+	}
+	var wg sync.WaitGroup
+	sem := make(chan struct{}, 3) // three children at a time
+	for _, b := range results {
+		wg.Add(1)
+		sem <- struct{}{}
+		go func(b *br) {
+			defer wg.Done()
+			defer func() { <-sem }()
+			b.r = runBatch(b.d, 12, b.jobs, limit)
+		}(b)
 	}
 	wg.Wait()
 	for _, b := range results {
-		c.Count(fmt.Sprintf("delay:us=%d,p=%d", b.d.US, b.d.P))
+		if b.d.Site == 0 {
+			c.Count(fmt.Sprintf("delay:us=%d,p=%d", b.d.US, b.d.P))
+		}
 		if b.r.Crash != "" {
 			c.Violate(Violation{Signature: "C13/crash", What: "the server process died while terminals were disconnecting",
-				Input: batchInput(b.d, 8, b.jobs), Observed: b.r.Crash, Required: "the server process keeps running"})
+				Input: batchInput(b.d, 12, b.jobs), Observed: b.r.Crash, Required: "the server process keeps running"})
 		}
 		if b.r.Slow {
 			c.Count("batch-killed-at-time-limit")
